@@ -44,6 +44,10 @@ type Config struct {
 	// Reactive: the emulated consumer module reacts to the "cannot pay" notification by killing its
 	// (repeated) context from inside the state callback, as a real host module may do
 	Reactive bool `json:"reactive_module,omitempty"`
+	// ReactResp: the emulated consumer module reacts to a batch's responses by killing ("kill") or
+	// pausing ("pause") its (repeated, running) context from inside the response callback - "enough
+	// values collected" - through the keeper API, as a host module may do
+	ReactResp string `json:"react_in_response_callback,omitempty"`
 	// BaseDenom: the module's base denomination parameter ("" = "stake", the only coin that exists in
 	// the harness's bank); changed only by a governance parameter change during the history
 	BaseDenom string `json:"base_denom,omitempty"`
@@ -101,6 +105,9 @@ type CallbackRec struct {
 	Outputs []string `json:"outputs,omitempty"`
 	HasErr  bool     `json:"has_err,omitempty"`
 	Cause   string   `json:"cause,omitempty"`
+	// React / ReactOK: what the module did to its context from inside the callback, and whether the keeper accepted it
+	React   string `json:"react,omitempty"`
+	ReactOK bool   `json:"react_ok,omitempty"`
 }
 
 // StepRec is everything observed about one executed step.
@@ -292,7 +299,20 @@ func (w *World) mintToModule(name string, amt int64) {
 }
 
 func (w *World) respCallback(ctx sdk.Context, id tmbytes.HexBytes, outs []string, err error) {
-	w.cbs = append(w.cbs, CallbackRec{Kind: "response", Ctx: hx(id), Outputs: append([]string{}, outs...), HasErr: err != nil})
+	rec := CallbackRec{Kind: "response", Ctx: hx(id), Outputs: append([]string{}, outs...), HasErr: err != nil}
+	if w.cfg.ReactResp != "" {
+		if rc, found := w.k.GetRequestContext(ctx, id); found && rc.Repeated && rc.State == types.RUNNING {
+			var rerr error
+			switch w.cfg.ReactResp {
+			case "kill":
+				rerr = w.k.KillRequestContext(ctx, id, rc.Consumer)
+			case "pause":
+				rerr = w.k.PauseRequestContext(ctx, id, rc.Consumer)
+			}
+			rec.React, rec.ReactOK = w.cfg.ReactResp, rerr == nil
+		}
+	}
+	w.cbs = append(w.cbs, rec)
 }
 
 func (w *World) stateCallback(ctx sdk.Context, id tmbytes.HexBytes, cause string) {
